@@ -76,7 +76,9 @@ let run_acc toks =
             (* the connection objects were dropped: if the model still has the connection open this was the
                backend_timeout (or, after the harness dropped the senders, the closed task channel) *)
             match nd.st.s_mode with
-            | MConnected -> apply node tok (if nd.hclose then SenderClosed else Timeout)
+            | MConnected ->
+              (* the closure returns at the closed receiver before it touches the writer, so that poll is not in the log *)
+              if nd.hclose then (apply node tok Poll; apply node tok SenderClosed) else apply node tok Timeout
             | _ -> ()
           end
           else if ev = "truncated" then ()
